@@ -4,6 +4,7 @@ import (
 	"errors"
 	"fmt"
 	"github.com/cybergarage/go-redis/redis"
+	"github.com/cybergarage/go-tracing/tracer"
 	"testing"
 
 	"verif/sim/resp"
@@ -47,20 +48,33 @@ func (m *spanMonitor) onEvent(ev wl.SpanEvent) {
 	}
 }
 
-// atWork is evaluated when a handler call or a reply write happens.
-func (m *spanMonitor) atWork(what string) {
-	roots := 0
-	var last *wl.RecSpan
-	for _, s := range m.tr.Spans {
-		if s.Parent < 0 {
-			last = s
-			if s.Open {
-				roots++
+// atWork is evaluated when a handler call or a reply write happens: exactly one root span is open, the latest one
+// of its tracer. others: tracers installed later on the same server (a request belongs to the tracer that was
+// installed when it began); untraced: the null tracer is installed now, so a request that began under it has no root.
+func (m *spanMonitor) atWork(what string, others []*wl.RecTracer, untraced bool) {
+	roots, latestOpen := 0, false
+	for _, t := range append([]*wl.RecTracer{m.tr}, others...) {
+		if t == nil {
+			continue
+		}
+		var last *wl.RecSpan
+		for _, s := range t.Spans {
+			if s.Parent < 0 {
+				last = s
+				if s.Open {
+					roots++
+				}
 			}
 		}
+		if last != nil && last.Open {
+			latestOpen = true
+		}
 	}
-	if roots != 1 || last == nil || !last.Open {
-		m.o.violate("c20:no-single-open-root:"+what, "%s happens with %d open root spans (latest root open: %t); %s", what, roots, last != nil && last.Open, m.ctx())
+	if roots == 0 && untraced {
+		return
+	}
+	if roots != 1 || !latestOpen {
+		m.o.violate("c20:no-single-open-root:"+what, "%s happens with %d open root spans (latest root open: %t); %s", what, roots, latestOpen, m.ctx())
 	}
 }
 
@@ -146,12 +160,15 @@ func runC20(t *testing.T, tape *sim.Tape, tier string) *Outcome {
 		o.stat("runs_with_forced_lock_contention", 1)
 	}
 	// one run in eight: the server is stopped while a command is executing (its connection is closed under it)
+	var tr2 *wl.RecTracer // a tracer installed later in the run (see below)
+	var mon2 *spanMonitor
+	untraced := false
 	stopAt := -1
 	if tape.Draw(8, "stopduring") == 7 {
 		stopAt = tape.Draw(3*len(reqs)+1, "stopat")
 	}
 	c.D.Result = func(call *wl.Call) (*resp.Value, error) {
-		mon.atWork("handler-call")
+		mon.atWork("handler-call", []*wl.RecTracer{tr2}, untraced)
 		if call.Seq == stopAt {
 			o.stat("stop_during_command", 1)
 			c.S.Logf("c0", "Stop() during handler call %d", call.Seq)
@@ -173,7 +190,7 @@ func runC20(t *testing.T, tape *sim.Tape, tier string) *Outcome {
 	c.start()
 	c.P.Ends[1].WriteHook = func(p []byte) {
 		c.collect()
-		mon.atWork("reply-write")
+		mon.atWork("reply-write", []*wl.RecTracer{tr2}, untraced)
 	}
 	// where the stream ends
 	cut := len(c.stream)
@@ -195,8 +212,37 @@ func runC20(t *testing.T, tape *sim.Tape, tier string) *Outcome {
 	if endMode == 5 {
 		goneHow = tape.Draw(2, "gonehow")
 	}
+	// one run in six: the application takes the tracer away (or installs another one) while the connection is
+	// open, at a moment when every request sent so far has been answered; what the first tracer has seen must
+	// stay balanced, and it sees nothing of the requests that begin after the one being awaited
+	swapAt, swapped := -1, false
+	if cfg.Batch != 1 && tape.Draw(6, "tracerswap") == 5 {
+		swapAt = 1 + tape.Draw(len(reqs), "swapat")
+	}
 	// deliver stream[:cut] in batches
 	for c.sent < cut && len(o.Viol) == 0 && !c.done {
+		if swapAt >= 0 && !swapped && c.sentReqs() >= swapAt && c.sent == c.ends[c.sentReqs()-1] {
+			swapped = true
+			if tape.Draw(2, "swapto") == 0 {
+				c.Srv.SetTracer(tracer.NullTracer)
+				untraced = true
+				o.stat("tracer_removed_while_connected", 1)
+			} else {
+				tr2 = &wl.RecTracer{}
+				mon2 = &spanMonitor{tr: tr2, o: o, ctx: func() string { return "second tracer, " + mon.ctx() }}
+				tr2.OnEvent = func(ev wl.SpanEvent) {
+					kind := "finish"
+					if ev.Start {
+						kind = "start"
+					}
+					c.S.Logf("c0", "tracer2 span %s #%d %s parent=%d", kind, ev.ID, ev.Name, ev.Parent)
+					c.collect()
+					mon2.onEvent(ev)
+				}
+				c.Srv.SetTracer(tr2)
+				o.stat("tracer_replaced_while_connected", 1)
+			}
+		}
 		to := cut
 		if cfg.Batch != 1 {
 			// next request boundary (lock-step) or a drawn batch
@@ -240,6 +286,16 @@ func runC20(t *testing.T, tape *sim.Tape, tier string) *Outcome {
 	} else {
 		o.violate("c20:loop-alive", "connection loop did not return after the stream ended")
 	}
+	if tr2 != nil {
+		if c.panicVal == nil && c.done {
+			mon2.atEnd("the connection loop returned (second tracer)")
+		}
+		for _, s := range tr2.Spans {
+			if s.Finishes != 1 && c.panicVal == nil {
+				o.violate("c20:finish-count:"+s.Name, "span %s of the second tracer finished %d times", s, s.Finishes)
+			}
+		}
+	}
 	// every root finished exactly once
 	for _, s := range tr.Spans {
 		if s.Finishes != 1 && c.panicVal == nil {
@@ -258,7 +314,7 @@ func init() {
 	register(&Check{
 		ID: "C20", Bubble: true, Run: runC20,
 		Runs:   map[string]int{"quick": 40000, "thorough": 1500000},
-		Rule:   "a case is one (pipeline, stream-end fault, delivery schedule) triple: pipelines as in C03 plus values that are not command arrays (empty, null and nested arrays, null or non-bulk command names, non-array values) (every command, valid/ill-formed/unknown, QUIT, AUTH, unauthorized state with a required password, injected handler errors) x {FIN after the last request, FIN at a request boundary, FIN inside a request, RST, corrupted frame, client gone before reading so that reply writes fail} x optionally Server.Stop() while a command is executing x optionally a busy command lock at drawn acquisitions (phantom holder released once the connection waits for it) x seeded chunking/batching; the span-nesting invariant is evaluated at every tracer, handler and reply-write event; distinct = distinct (config, end mode, cut, chunk sequence) signatures; non-trivial = stream-end fault or chunked delivery",
+		Rule:   "a case is one (pipeline, stream-end fault, delivery schedule) triple: pipelines as in C03 plus values that are not command arrays (empty, null and nested arrays, null or non-bulk command names, non-array values) (every command, valid/ill-formed/unknown, QUIT, AUTH, unauthorized state with a required password, injected handler errors) x {FIN after the last request, FIN at a request boundary, FIN inside a request, RST, corrupted frame, client gone before reading so that reply writes fail} x optionally Server.Stop() while a command is executing x optionally a busy command lock at drawn acquisitions (phantom holder released once the connection waits for it) x optionally the tracer removed or replaced by the application at a moment when every request sent so far has been answered (a request belongs to the tracer installed when it began) x seeded chunking/batching; the span-nesting invariant is evaluated at every tracer, handler and reply-write event; distinct = distinct (config, end mode, cut, chunk sequence) signatures; non-trivial = stream-end fault or chunked delivery",
 		Real:   []string{"redis.Server connection loop and dispatch with a tracer installed", "go-tracing span stack (tracer/common)"},
 		Stub:   []string{"tracer: recording tracer.Tracer/Span double", "transport: simulated net.Conn", "handler: recording double"},
 		Assume: []string{"the loop's extra iteration that meets end of stream may open and close a root span of its own"},
